@@ -190,6 +190,9 @@ func c17One(x *ctx, c importCase) bool {
 	sort.Strings(wantPipes)
 	r := loadInProcess(dir, lc)
 	defer r.release()
+	if exhausted(r) {
+		return false
+	}
 	x.res.Evaluations++
 	x.kinds[fmt.Sprintf("edges=%d broken=%v special=%s", len(c.Edges), c.Broken >= 0, c.Special)] = true
 	switch {
